@@ -14,6 +14,7 @@ CONSTANTS
     ReaderDone = TRUE
     AlertCloseOnErr = TRUE
     UdfStopAborts = FALSE
+    ForkHoldsRLock = TRUE
     NWaiters = 0
     WaitHoldsMu = TRUE
     HookNeedsTmLock = TRUE
